@@ -276,6 +276,63 @@ fn k_c13_{name}() {{
 """
 
 
+HOT_TMPL = """
+/// C01/C02/C17: `{name}` behind the library's own `create` subscriber handle: events through
+/// cloned handles after terminals, unsubscribe at a symbolic position, is_closed() sampled
+pub fn hot_{name}() {{
+  reset();
+  let n = nd::usize();
+  nd::assume(n <= K);
+  let th = nd::u8();
+  let pk = nd::u8();
+  nd::assume(pk <= 2);
+  let _ = (n, th, pk);
+  let mut stash = None;
+  let src = observable::create(|s: Subscriber<_>| {{ stash = Some(s); }});
+  let sub = {build_src}.actual_subscribe({probe});
+  let mut h = stash.unwrap();
+  let mut sub = Some(sub);
+  let cut = nd::usize();
+  nd::assume(cut <= K);
+  let mut closed_seen = false;
+  let mut i = 0;
+  while i < K {{
+    if i == cut {{
+      if let Some(u) = sub.take() {{
+        u.unsubscribe();
+        unsafe {{ SILENCED = true }};
+        assert!(h.is_closed(), "{name}: source-side handle open after unsubscribe()");
+      }}
+    }}
+    let e = draw_evt();
+    if e.k == K_NEXT {{
+      Observer::<u8, u8>::next(&mut h, e.v);
+    }} else if e.k == K_COMPLETE {{
+      Observer::<u8, u8>::complete(h.clone());
+    }} else {{
+      Observer::<u8, u8>::error(h.clone(), e.v);
+    }}
+    if let Some(u) = sub.as_ref() {{
+      let c = u.is_closed();
+      assert!(!(closed_seen && !c), "{name}: is_closed() went from true back to false");
+      if c {{ closed_seen = true; unsafe {{ SILENCED = true }}; }}
+    }}
+    i += 1;
+  }}
+  crate::cover!(unsafe {{ LEN }} >= 2, "probe saw at least two events");
+  crate::cover!(cut < K && unsafe {{ LEN }} >= 1, "unsubscribed inside the script after a delivery");
+  assert!(unsafe {{ !GRAMMAR_BROKEN }}, "{name}: event after terminal");
+  assert!(unsafe {{ !AFTER_SILENCE }}, "{name}: delivery after unsubscribe() returned / after is_closed() returned true");
+}}
+#[cfg(kani)]
+#[kani::proof]
+#[kani::unwind({unwind})]
+fn k_hot_{name}() {{
+  hot_{name}()
+}}
+"""
+
+
 def gen():
     out = [HEAD]
     hs = []
@@ -297,6 +354,11 @@ def gen():
         b = build.replace("{src}", "src")
         out.append(C13_TMPL.format(name=name, build_src=b, probe=probe, unwind=K + 9))
         hs.append(dict(name=f"k_c13_{name}", fn=f"c13_{name}", props=["C13"], quick=name in ("take", "scan_initial", "last", "distinct_until_changed"), about=f"{name}: two subscriptions of clones over a cold create() source are equal; source runs once per subscription, never at build time"))
+    for name in ("take", "filter", "skip", "map", "take_while", "scan_initial", "finalize", "default_if_empty"):
+        build, probe, model, quick = UNARY[name]
+        b = build.replace("{src}", "src")
+        out.append(HOT_TMPL.format(name=name, build_src=b, probe=probe, unwind=K + 9))
+        hs.append(dict(name=f"k_hot_{name}", fn=f"hot_{name}", props=["C01", "C02", "C17"], quick=name in ("take", "filter", "finalize"), about=f"{name} behind a create() subscriber handle: {K} events through cloned handles incl. after terminals, unsubscribe at a symbolic position, is_closed() sampled after every step"))
     out.append(open(os.path.join(ROOT, "gen", "kani_static.rs")).read())
     hs += json.load(open(os.path.join(ROOT, "gen", "kani_static.json")))
     open(os.path.join(ROOT, "kani", "src", "gen.rs"), "w").write("\n".join(out))
